@@ -131,7 +131,11 @@ class C16(Property):
         fill = rnd.random() < 0.5
         if method == "linear" and not fill:
             tmask = "FLEX"
-        return dict(method=method, src=src, tgt=tgt, same_geometry=same, smask=smask, tmask=tmask, fill=fill, seed=rnd.randrange(1 << 30))
+        spec = dict(method=method, src=src, tgt=tgt, same_geometry=same, smask=smask, tmask=tmask, fill=fill, seed=rnd.randrange(1 << 30))
+        if rnd.random() < 0.2 and not same:
+            # the target mask is given to the adapter itself (out_mask=...), the consumer accepts any mask
+            spec.update(tmask="FLEX", ada_mask=True)
+        return spec
 
     def run(self, spec):
         out = Outcome()
@@ -159,6 +163,25 @@ class C16(Property):
         else:
             mt = None
         unm_s = np.ones(ns, bool) if ms is None else ~ms.ravel()
+        ada_mask = None
+        if spec.get("ada_mask"):
+            ada_mask = rng.random(tshape) < 0.3
+            if spec["method"] == "linear" and not spec["fill"] and dim > 1 and unm_s.sum() >= dim + 2:
+                # without filling, the requested mask has to cover everything outside the hull (judged with a safety margin)
+                try:
+                    tri0 = Delaunay(cs2[unm_s])
+                    c00 = cs2[unm_s].mean(axis=0)
+                    safe = tri0.find_simplex(c00 + (ct2 - c00) * (1 + 1e-6)) >= 0
+                    ada_mask |= ~safe.reshape(tshape)
+                except Exception:  # pylint: disable=broad-except
+                    ada_mask = None
+            elif spec["method"] == "linear" and not spec["fill"]:
+                ada_mask = None
+            if ada_mask is not None and ada_mask.all():
+                ada_mask = None
+            if ada_mask is not None:
+                mt = ada_mask
+                out.count("target_mask_given_to_the_adapter")
         if spec["method"] == "linear":
             # affinely independent unmasked source locations, else out of domain
             P = cs2[unm_s]
@@ -176,8 +199,9 @@ class C16(Property):
 
         def deliver(values):
             sinfo = fm.Info(time=slots.T0, grid=gs, units="m", mask=(ms if ms is not None else fm.Mask.FLEX))
-            tinfo = fm.Info(time=slots.T0, grid=gt, units="m", mask=(mt if mt is not None else getattr(fm.Mask, spec["tmask"]) if spec["tmask"] in ("FLEX", "NONE") else fm.Mask.FLEX))
-            ada = RegridNearest() if spec["method"] == "nearest" else RegridLinear(fill_with_nearest=spec["fill"])
+            tinfo = fm.Info(time=slots.T0, grid=gt, units="m", mask=(mt if (mt is not None and ada_mask is None) else getattr(fm.Mask, spec["tmask"]) if spec["tmask"] in ("FLEX", "NONE") else fm.Mask.FLEX))
+            kw = dict(out_mask=ada_mask.copy()) if ada_mask is not None else {}
+            ada = RegridNearest(**kw) if spec["method"] == "nearest" else RegridLinear(fill_with_nearest=spec["fill"], **kw)
             o, (inp,) = slots.simple_link(sinfo, tinfo, adapters=[ada])
             payload = np.ma.array(values, mask=ms) if ms is not None else values
             o.push_data(payload, slots.T0)
@@ -203,6 +227,16 @@ class C16(Property):
             return out
         res = np.ma.getdata(mag)[0].reshape(nt)
         rmask = (np.ma.getmaskarray(mag)[0] if np.ma.isMaskedArray(mag) else np.zeros(tshape, bool)).reshape(nt)
+        if spec["seed"] % 3 == 0:
+            # history: a second, fresh adapter between the same two grid objects must deliver the same field
+            got2, _ = deliver(vals.copy())
+            m2 = got2.magnitude
+            r2 = np.ma.getdata(m2)[0].reshape(nt)
+            k2 = (np.ma.getmaskarray(m2)[0] if np.ma.isMaskedArray(m2) else np.zeros(tshape, bool)).reshape(nt)
+            out.count("second_adapter_on_the_same_grid_objects")
+            if not np.array_equal(k2, rmask) or not np.allclose(r2[~k2], res[~rmask], rtol=1e-12, atol=1e-12):
+                out.viol("second_adapter_differs", f"a second {spec['method']} adapter between the same grid objects delivers other values: first {res[~rmask][:4].tolist()}, second {r2[~k2][:4].tolist()}", spec=spec)
+                return out
         if mt is not None and np.any(mt.ravel() & ~rmask):
             out.viol("target_mask_lost", "a masked target element came back unmasked", spec=spec)
             return out
@@ -317,7 +351,7 @@ class C16(Property):
     def coverage_gaps(self, counters, tier):
         need = ["method_nearest", "method_linear", "target_elements_checked", "identity_between_layouts_checked", "inside_hull_checked",
                 "outside_hull_masked_checked", "outside_hull_filled_checked", "poison_runs", "grids_with_changed_data_location", "undeclared_masked_data_refused", "dim_1", "dim_2", "dim_3",
-                "sources_with_more_than_256_locations", "src_struct_uniform", "src_struct_rect", "src_struct_esri", "src_upoints", "src_ucells", "src_ucells_mixed", "tgt_struct_uniform", "tgt_upoints", "tgt_ucells"]
+                "sources_with_more_than_256_locations", "target_mask_given_to_the_adapter", "second_adapter_on_the_same_grid_objects", "src_struct_uniform", "src_struct_rect", "src_struct_esri", "src_upoints", "src_ucells", "src_ucells_mixed", "tgt_struct_uniform", "tgt_upoints", "tgt_ucells"]
         return [f"{k} never observed" for k in need if not counters.get(k)]
 
 
